@@ -8,6 +8,7 @@ CONSTANTS
   AllowFail = TRUE
   CopyFix = FALSE
   Gen = FALSE
+  LateFlag = FALSE
 SPECIFICATION Spec
 INVARIANT RuleOK
 CHECK_DEADLOCK FALSE
